@@ -3,7 +3,8 @@
 \* database describe exactly that database.  One observation per (state, DDL spelling):
 \*   orig      projection of the database the harness created;   from_hcl / from_sql   projection of a fresh database re-created from
 \*   the evaluated HCL export / from the SQL export;   diff_fwd / diff_bwd   number of changes between the inspected schema and the
-\*   evaluated HCL in both directions;   stable   two inspections give byte-identical HCL.
+\*   evaluated HCL in both directions;   fresh_diff   number of changes planned between the database re-created from the HCL export and that
+\*   same document (applying an export to an empty database converges);   stable   two inspections give byte-identical HCL.
 EXTENDS SqliteModel, Json
 CONSTANT TraceFile
 Trace == ndJsonDeserialize(TraceFile)
@@ -17,6 +18,7 @@ Names(e) ==
   IF e.skipped # "" THEN {}
   ELSE (IF e.err = "" THEN {} ELSE {"ExportError"})
        \cup (IF e.err # "" \/ (e.diff_fwd = 0 /\ e.diff_bwd = 0) THEN {} ELSE {"HCLDiffNotEmpty"})
+       \cup (IF e.err # "" \/ e.fresh_diff = 0 THEN {} ELSE {"ReplanOnRecreatedNotEmpty"})
        \cup (IF e.err # "" \/ e.stable THEN {} ELSE {"InspectNotDeterministic"})
        \cup (IF e.err # "" \/ Same(e.from_hcl, e.orig) THEN {} ELSE {"HCLDoesNotRecreate"})
        \cup (IF e.err # "" \/ Same(e.from_sql, e.orig) THEN {} ELSE {"SQLDoesNotRecreate"})
